@@ -272,6 +272,90 @@ def outside_case(method):
                      "date-range message, never an extrapolated value")
 
 
+def ephem_case(change):
+    """the real Ephem on three symbolic points: interpolating at one of its own dates returns that point, an interpolated point
+    carries the ephemeris' frame -- also after the ephemeris has been interpolated once and then moved to another frame
+    (`ephem.frame = ...`, the usage shown in the class docstring); `change` = False: no frame change (baseline)"""
+    ins = [(f"t{i}", "real") for i in range(3)] + [(f"p{i}{k}", "real") for i in range(3) for k in range(6)] + \
+          [("x", "real"), ("psi", "angle", {"lo": "free"})]
+
+    def pre(v):
+        return [v["t0"] < v["t1"], v["t1"] < v["t2"], v["t0"] <= v["x"], v["x"] <= v["t2"]]
+
+    def run(env, v):
+        import importlib
+        if env.symbolic:
+            from symx.stubs import SymDate, carrier
+            eph = env.mod("beyond.orbits.ephem")
+            fr = env.mod("beyond.frames.frames")
+            for mname in ("beyond.utils.matrix", "beyond.frames.orient", "beyond.frames.center", "beyond.utils.interp"):
+                env.mod(mname)
+            iau = env.mod("beyond.frames.iau1980")
+            importlib.import_module("beyond.frames.orient").iau1980 = iau
+            rot3 = importlib.import_module("beyond.utils.matrix").rot3
+            iau.precesion = lambda date: rot3(v["psi"])          # MOD <-> EME2000: an arbitrary rotation about z
+            forms = importlib.import_module("beyond.orbits.forms")
+
+            class D(SymDate):
+                _mjd = property(lambda self: self.t)
+            saved = eph.StateVector
+            eph.StateVector = lambda arr, date, form, frame: carrier(list(arr), date=date, frame=frame, form=form)
+            try:
+                dates = [D(v[f"t{i}"]) for i in range(3)]
+                orbs = [carrier([v[f"p{i}{k}"] for k in range(6)], date=dates[i], frame=fr.EME2000, form=forms.CART) for i in range(3)]
+                e = eph.Ephem(orbs, method="linear")
+                e.interpolate(D(v["x"]))                        # first use: the interpolator is built
+                if change:
+                    e.frame = fr.MOD
+                node = e.interpolate(dates[1])
+                mid = e.interpolate(D(v["x"]))
+                w = (v["x"] - v["t0"]) / (v["t1"] - v["t0"]) if bool(v["x"] <= v["t1"]) else None
+                lab = getattr(node.frame, "name", node.frame) == ("MOD" if change else "EME2000") and \
+                    getattr(mid.frame, "name", mid.frame) == ("MOD" if change else "EME2000")
+                return {"node": [node[k] - e[1][k] for k in range(6)], "label": Holds(SB(z3.BoolVal(bool(lab)))),
+                        "between": [_between(mid[k], e, v, k) for k in range(6)]}
+            finally:
+                eph.StateVector = saved
+        from beyond.orbits import StateVector, Ephem
+        from beyond.dates import Date
+        d0 = Date(2020, 1, 1)
+        ts = sorted([float(v["t0"]), float(v["t1"]), float(v["t2"])])
+        from datetime import timedelta
+        dates = [d0 + timedelta(seconds=600 * (t - ts[0]) / max(ts[2] - ts[0], 1e-9)) for t in ts]
+        orbs = [StateVector([7e6 + 1e5 * v[f"p{i}0"], 1e5 * v[f"p{i}1"], 1e5 * v[f"p{i}2"], 1e2 * v[f"p{i}3"], 7.5e3 + 1e2 * v[f"p{i}4"],
+                             1e2 * v[f"p{i}5"]], dates[i], "cartesian", "EME2000") for i in range(3)]
+        e = Ephem(orbs, method="linear")
+        xq = dates[0] + timedelta(seconds=600 * (min(max(float(v["x"]), ts[0]), ts[2]) - ts[0]) / max(ts[2] - ts[0], 1e-9))
+        e.interpolate(xq)
+        if change:
+            e.frame = "MOD"
+        node = e.interpolate(dates[1])
+        mid = e.interpolate(xq)
+        lab = node.frame.name == ("MOD" if change else "EME2000") and mid.frame.name == node.frame.name
+        lo, hi = (0, 1) if xq <= dates[1] else (1, 2)
+        w = (xq - dates[lo]).total_seconds() / (dates[hi] - dates[lo]).total_seconds()
+        exp = np.array(e[lo]) * (1 - w) + np.array(e[hi]) * w
+        sc = np.array([7e6] * 3 + [7.5e3] * 3) * 1e-3
+        return {"node": list((np.array(node) - np.array(e[1])) / sc), "label": Holds(bool(lab)),
+                "between": list((np.array(mid) - exp) / sc)}
+
+    def _between(val, e, v, k):
+        # linear interpolant of the *current* points of the ephemeris
+        if bool(v["x"] <= v["t1"]):
+            w = (v["x"] - v["t0"]) / (v["t1"] - v["t0"])
+            return val - (e[0][k] * (1 - w) + e[1][k] * w)
+        w = (v["x"] - v["t1"]) / (v["t2"] - v["t1"])
+        return val - (e[1][k] * (1 - w) + e[2][k] * w)
+
+    def ref(env, v, out):
+        return {"node": [0] * 6, "label": None, "between": [0] * 6}
+    return Case(f"ephem/{'frame_change' if change else 'plain'}", ins, run, ref, pre=pre, timeout=90, maxpaths=200, tol=0, abs_tol=1e-7,
+                signature="Ephem.interpolate after a frame change returns stale coordinates" if change else None,
+                desc="Ephem (linear): interpolation at a node returns the node, between nodes the linear interpolant of the "
+                     "ephemeris' current points, labelled with the ephemeris' frame" + (" -- after `ephem.frame = MOD` following a first "
+                     "interpolation" if change else ""))
+
+
 def all_cases(tier):
     b = bounds(tier)
     cs = [previdx_case(n) for n in range(2, b["prev_idx_table_len"] + 1)]
@@ -282,6 +366,7 @@ def all_cases(tier):
         for w in ("first", "middle", "last"):
             cs.append(basis_case(o, w))
     cs += [node_case(2), node_case(3), node_case(4), linear_case(), outside_case("lagrange"), outside_case("linear")]
+    cs += [ephem_case(False), ephem_case(True)]
     if tier != "quick":
         cs.append(node_case(8))
     return cs
